@@ -25,7 +25,7 @@ func init() {
 	Register(&Rule{ID: "R-REL-4", Props: []string{"C03"}, Floor: 16,
 		Doc: "join dispatch table of joinViews over JoinType ∈ {none, CROSS, INNER, OUTER} × Direction ∈ {none, LEFT, RIGHT, FULL}: which of CrossJoin / InnerJoin / OuterJoin(direction) runs equals the documented table (no type and no direction → INNER; a direction alone → OUTER with that direction); OuterJoin maps an undefined direction to LEFT; InnerJoin without a condition is a cross join",
 		Run: ruleRel4})
-	Register(&Rule{ID: "R-REL-5", Props: []string{"C03", "C04"}, Floor: 6,
+	Register(&Rule{ID: "R-REL-5", Props: []string{"C03", "C04"}, Floor: 9,
 		Doc: "set-operator dispatch: in selectSet and selectSetForRecursion, Union / Except / Intersect are called exactly under Operator == UNION / EXCEPT / INTERSECT, with all = NOT set.All.IsEmpty() (sibling agreement of the two switches)",
 		Run: ruleRel5})
 	Register(&Rule{ID: "R-REL-3", Props: []string{"C03"}, Floor: 2,
@@ -325,22 +325,22 @@ func ruleRel4(c *Ctx) {
 
 func ruleRel5(c *Ctx) {
 	want := map[string]string{"lib/query.(*View).Union": "UNION", "lib/query.(*View).Except": "EXCEPT", "lib/query.(*View).Intersect": "INTERSECT"}
-	for _, fname := range []string{"lib/query.selectSet", "lib/query.selectSetForRecursion"} {
-		fn := c.Fn(fname)
-		if fn == nil {
-			continue
-		}
-		seen := map[string]bool{}
+	// every dispatch site, wherever it lives (the two switches may share a helper)
+	sitesIn := map[*ssa.Function]map[string]bool{}
+	for _, fn := range c.P.FuncsIn(false, "lib/query") {
 		for _, call := range core.Calls(fn) {
 			name := c.P.CalleeName(call)
 			tokName, ok := want[name]
 			if !ok {
 				continue
 			}
-			seen[name] = true
+			c.Touch(fn)
+			if sitesIn[fn] == nil {
+				sitesIn[fn] = map[string]bool{}
+			}
+			sitesIn[fn][name] = true
 			key := c.KeyAt(fn, short2(name))
 			tv, _ := parserConst(c, tokName)
-			// dominated by Operator.Token == <tok>
 			guard := false
 			for _, f := range core.FactsAt(call.Block()) {
 				bo, ok := f.Cond.(*ssa.BinOp)
@@ -354,22 +354,41 @@ func ruleRel5(c *Ctx) {
 					guard = true
 				}
 			}
-			// all = !set.All.IsEmpty()
+			// all = !set.All.IsEmpty(), possibly through a local variable
 			args := call.Common().Args
-			allArg := args[len(args)-1]
 			allOK := false
-			if u, ok := allArg.(*ssa.UnOp); ok && u.Op == token.NOT {
-				if cc, ok := u.X.(*ssa.Call); ok && c.P.CalleeName(cc) == "lib/parser.(Token).IsEmpty" && strings.Contains(valuePathLabel(cc.Common().Args[0]), "All") {
-					allOK = true
+			for _, o := range core.Origins(args[len(args)-1], false) {
+				if u, ok := o.(*ssa.UnOp); ok && u.Op == token.NOT {
+					if cc, ok := u.X.(*ssa.Call); ok && c.P.CalleeName(cc) == "lib/parser.(Token).IsEmpty" && strings.Contains(valuePathLabel(cc.Common().Args[0]), "All") {
+						allOK = true
+						continue
+					}
 				}
+				allOK = false
+				break
 			}
 			c.Check(guard && allOK, key, c.Pos(call), "called under Operator == "+tokName+" with all = !set.All.IsEmpty()",
 				fmt.Sprintf("set operator dispatch differs: guarded by Operator == %s: %v; all = NOT set.All.IsEmpty(): %v", tokName, guard, allOK))
 		}
-		for n := range want {
-			if !seen[n] {
-				c.Bad(c.KeyAt(fn, short2(n)), c.FnPos(fn), "the set operator "+want[n]+" is no longer dispatched here")
+	}
+	// both set evaluators reach a dispatch of each operator
+	for _, fname := range []string{"lib/query.selectSet", "lib/query.selectSetForRecursion"} {
+		fn := c.Fn(fname)
+		if fn == nil {
+			continue
+		}
+		reach := staticReach(fn)
+		for n, tokName := range want {
+			found := false
+			for f, path := range reach {
+				if len(path) > 2 {
+					continue
+				}
+				if sitesIn[f][n] {
+					found = true
+				}
 			}
+			c.Check(found, c.KeyAt(fn, "dispatches "+tokName), c.FnPos(fn), "reaches "+short2(n), "the set operator "+tokName+" is no longer dispatched from here")
 		}
 	}
 }
